@@ -32,6 +32,8 @@
 //	                                 handleRequest put the lease into the table and dropped the lease lock, before it
 //	                                 sets up cache entries, QoS, NAT and the Accounting-Start; `… notrun` when the
 //	                                 REQUEST was refused before that point
+//	fault qe|qi|nat on|off           the QoS egress / QoS ingress / subscriber_nat kernel map is kept full: every Put of a
+//	                                 NEW key fails (E2BIG) until `off`; updates of existing keys and deletes work
 //	shutdown                         what Server.Start does when its context is cancelled
 //
 // Observation:  <reply> t=<s> L=<leases> C=<circuit-id index: m<k>.c<j>:<address>:<expiry>> P=<pool bindings> F=<free list, in order> U=<unavailable>
@@ -159,10 +161,11 @@ func initKernel() string {
 		"cfg":    {Type: ebpf.Array, KeySize: 4, ValueSize: 16, MaxEntries: 1},
 		"cidmap": {Type: ebpf.Hash, KeySize: 8, ValueSize: 8, MaxEntries: 4096},
 		"cid":    {Type: ebpf.Hash, KeySize: 32, ValueSize: 25, MaxEntries: 4096},
-		"qose":   {Type: ebpf.Hash, KeySize: 4, ValueSize: 32, MaxEntries: 4096},
-		"qosi":   {Type: ebpf.Hash, KeySize: 4, ValueSize: 32, MaxEntries: 4096},
+		// the QoS and NAT maps are small so that they can be filled up (fault injection: `fault qe|qi|nat on`)
+		"qose":   {Type: ebpf.Hash, KeySize: 4, ValueSize: 32, MaxEntries: 16},
+		"qosi":   {Type: ebpf.Hash, KeySize: 4, ValueSize: 32, MaxEntries: 16},
 		"qosst":  {Type: ebpf.PerCPUArray, KeySize: 4, ValueSize: 32, MaxEntries: 1},
-		"natsub": {Type: ebpf.Hash, KeySize: 4, ValueSize: 64, MaxEntries: 4096},
+		"natsub": {Type: ebpf.Hash, KeySize: 4, ValueSize: 64, MaxEntries: 16},
 	}
 	m := map[string]*ebpf.Map{}
 	for n, s := range specs {
@@ -328,6 +331,7 @@ type run struct {
 	t0     time.Time
 	xid    uint32
 	radius bool
+	full   map[string]bool // kernel maps kept full (fault injection)
 }
 
 func (comp) NewRun() hx.Run { return &run{} }
@@ -404,6 +408,7 @@ func (r *run) init(radiusOn bool, leaseSecs int) string {
 		srv.SetRADIUSClient(cl)
 	}
 	r.srv, r.pool, r.loader, r.qos, r.nat, r.radius = srv, pool, loader, qm, nm, radiusOn
+	r.full = map[string]bool{}
 	r.t0 = time.Now()
 	return ""
 }
@@ -459,9 +464,44 @@ func (r *run) send(p *dhcpv4.DHCPv4) string {
 	return "other"
 }
 
+// fillerBase: keys from here on are the harness's own filler entries (a full map), never shown
+const fillerBase = 0xffff0000
+
+// fillUp leaves the map without a free slot: a Put of a new key fails (E2BIG), updates and deletes still work
+func fillUp(m *ebpf.Map) {
+	val := make([]byte, m.ValueSize())
+	for i := uint32(0); i < 64; i++ {
+		key := make([]byte, 4)
+		binary.LittleEndian.PutUint32(key, fillerBase+i)
+		if err := m.Put(key, val); err != nil {
+			return
+		}
+	}
+}
+
+func dropFillers(m *ebpf.Map) {
+	for _, k := range mapKeys(m) {
+		if binary.LittleEndian.Uint32(k) >= fillerBase {
+			_ = m.Delete(k)
+		}
+	}
+}
+
+// topUp re-fills the maps whose fault is on (a termination may have freed a slot)
+func (r *run) topUp() {
+	for name, on := range r.full {
+		if on {
+			fillUp(kmaps[name])
+		}
+	}
+}
+
 func le32Toks(m *ebpf.Map) []string {
 	var out []string
 	for _, k := range mapKeys(m) {
+		if binary.LittleEndian.Uint32(k) >= fillerBase {
+			continue
+		}
 		out = append(out, ipTokNum(binary.LittleEndian.Uint32(k)))
 	}
 	return sortToks(out)
@@ -877,11 +917,26 @@ func (r *run) Do(op string) string {
 		r.srv.SetRequestGapForVerif(func() {
 			r.srv.SetRequestGapForVerif(nil)
 			ir, _ = r.inner(in)
+			r.topUp()  // a map that is kept full stays full for the rest of the REQUEST
 			syncWait() // the Accounting-Stop of the termination (if any) is delivered before the REQUEST goes on
 		})
 		rr := r.send(r.packet(dhcpv4.MessageTypeRequest, k, ipOf(n), cid))
 		r.srv.SetRequestGapForVerif(nil)
 		reply = "estgap " + rr + " " + ir
+	case "fault":
+		// fault qe|qi|nat on|off: the QoS egress / QoS ingress / subscriber_nat kernel map has no free slot
+		if len(f) != 3 || (f[2] != "on" && f[2] != "off") {
+			return "badop"
+		}
+		name := map[string]string{"qe": "qose", "qi": "qosi", "nat": "natsub"}[f[1]]
+		if name == "" {
+			return "badop"
+		}
+		r.full[name] = f[2] == "on"
+		if f[2] == "off" {
+			dropFillers(kmaps[name])
+		}
+		reply = "ok"
 	case "shutdown":
 		if len(f) != 1 {
 			return "badop"
@@ -897,6 +952,7 @@ func (r *run) Do(op string) string {
 		return "badop"
 	}
 	syncWait()
+	r.topUp()
 	return reply + " " + r.snapshot()
 }
 
